@@ -236,7 +236,10 @@ def merge_stats(stats_list):
     tot = {"cases": 0, "nontrivial": 0, "total_ops": 0, "noops": 0, "classes": {}, "subjects": {},
            "counters": {}, "opkinds": {}, "samples": [], "per_config": {}}
     hashes = set()
+    rules = []
     for s in stats_list:
+        if s.get("rule") and s["rule"] not in rules:
+            rules.append(s["rule"])
         tot["cases"] += s.get("cases", 0)
         tot["nontrivial"] += s.get("nontrivial", 0)
         tot["total_ops"] += s.get("total_ops", 0)
@@ -245,7 +248,7 @@ def merge_stats(stats_list):
             for k, v in s.get(key, {}).items():
                 tot[key][k] = tot[key].get(k, 0) + v
         for h in s.get("nontrivial_hashes", []):
-            hashes.add((s.get("config"), h))
+            hashes.add((s.get("target"), s.get("config"), h))
         pc = tot["per_config"].setdefault(s.get("config", "?"), {"cases": 0, "nontrivial": 0})
         pc["cases"] += s.get("cases", 0)
         pc["nontrivial"] += s.get("nontrivial", 0)
@@ -253,6 +256,7 @@ def merge_stats(stats_list):
             if len(tot["samples"]) < 6 and (len(tot["samples"]) < 3 or len(smp) < 1500):
                 tot["samples"].append(smp)
     tot["distinct_nontrivial"] = len(hashes)
+    tot["rule"] = " / ".join(rules)
     return tot
 
 
